@@ -194,54 +194,88 @@ pub fn run_plan(prop: &str, mode: &str, seed: u64, scenarios: u64, seeds: u32, r
     let mut inconclusive = vec![];
     let mut clean = 0u64;
     let variants: Vec<bool> = if also_nopf { vec![false, true] } else { vec![false] };
-    'outer: for sc in 0..scenarios {
+    let mut cases: Vec<MiriCase> = vec![];
+    for sc in 0..scenarios {
         for rate in rates {
             for &nopf in &variants {
-                let c = MiriCase {
+                cases.push(MiriCase {
                     property: prop.to_string(),
                     mode: mode.to_string(),
                     scenario_seed: seed.wrapping_mul(1000) + sc,
                     miri_seeds: (0, seeds),
                     preemption_rate: rate.to_string(),
                     no_prefetch: nopf,
-                };
-                let r = run_case(&c);
-                res.executions += seeds as u64;
-                if r.ok {
-                    clean += seeds as u64;
-                } else if r.unavailable {
-                    res.harness_errors.push(format!("Miri engine unavailable: {}", r.excerpt));
-                    break 'outer;
-                } else if is_violation(prop, &r.class) {
-                    res.found.push((
-                        "external".to_string(),
-                        sc,
-                        Case::Miri(c.clone()),
-                        Violation {
-                            sig: Sig {
-                                property: prop.to_string(),
-                                family: "miri".into(),
-                                op: mode.to_string(),
-                                class: r.class.clone(),
-                                shape: "interpreter".into(),
-                            },
-                            detail: format!(
-                                "qmiri {mode} {} under Miri (seeds 0..{seeds}, pre-emption {rate}{}): {}",
-                                c.scenario_seed,
-                                if nopf { ", no prefetch feature" } else { "" },
-                                r.excerpt
-                            ),
-                        },
-                    ));
-                } else {
-                    inconclusive.push(format!(
-                        "scenario {} rate {rate}: {} {}",
-                        c.scenario_seed,
-                        r.class,
-                        r.excerpt.chars().take(300).collect::<String>()
-                    ));
-                }
+                });
             }
+        }
+    }
+    // make sure the interpreter build exists before fanning out (one tiny, sequential invocation)
+    if let Some(first) = cases.first() {
+        let mut warm = first.clone();
+        warm.miri_seeds = (0, 1);
+        warm.mode = "warm".into(); // compiles the engine if needed, executes nothing
+        let r = run_case(&warm);
+        if r.unavailable {
+            res.harness_errors.push(format!("Miri engine unavailable: {}", r.excerpt));
+            cases.clear();
+        }
+    }
+    // each invocation interprets its `seeds` executions in parallel; run as many invocations side by side as fit
+    let cores = std::thread::available_parallelism().map(|n| n.get()).unwrap_or(4);
+    let lanes = (cores / (seeds as usize).max(1)).clamp(1, 6);
+    let results: Vec<(MiriCase, MiriOutcome)> = {
+        let queue = std::sync::Mutex::new(cases.clone().into_iter().enumerate().collect::<Vec<_>>());
+        let out = std::sync::Mutex::new(Vec::<(usize, MiriCase, MiriOutcome)>::new());
+        std::thread::scope(|sc| {
+            for _ in 0..lanes {
+                sc.spawn(|| loop {
+                    let next = queue.lock().unwrap().pop();
+                    let Some((i, c)) = next else { break };
+                    let r = run_case(&c);
+                    out.lock().unwrap().push((i, c, r));
+                });
+            }
+        });
+        let mut v = out.into_inner().unwrap();
+        v.sort_by_key(|x| x.0);
+        v.into_iter().map(|(_, c, r)| (c, r)).collect()
+    };
+    for (c, r) in results {
+        res.executions += seeds as u64;
+        let rate = &c.preemption_rate;
+        let nopf = c.no_prefetch;
+        if r.ok {
+            clean += seeds as u64;
+        } else if r.unavailable {
+            res.harness_errors.push(format!("Miri engine unavailable: {}", r.excerpt));
+        } else if is_violation(prop, &r.class) {
+            res.found.push((
+                "external".to_string(),
+                c.scenario_seed,
+                Case::Miri(c.clone()),
+                Violation {
+                    sig: Sig {
+                        property: prop.to_string(),
+                        family: "miri".into(),
+                        op: mode.to_string(),
+                        class: r.class.clone(),
+                        shape: "interpreter".into(),
+                    },
+                    detail: format!(
+                        "qmiri {mode} {} under Miri (seeds 0..{seeds}, pre-emption {rate}{}): {}",
+                        c.scenario_seed,
+                        if nopf { ", no prefetch feature" } else { "" },
+                        r.excerpt
+                    ),
+                },
+            ));
+        } else {
+            inconclusive.push(format!(
+                "scenario {} rate {rate}: {} {}",
+                c.scenario_seed,
+                r.class,
+                r.excerpt.chars().take(300).collect::<String>()
+            ));
         }
     }
     res.coverage = serde_json::json!({
